@@ -2,6 +2,7 @@ import VtModel.Mvt
 import VtProofs.Prim
 import VtProofs.MvtTables
 import VtProofs.MvtOps
+import VtProofs.MvtCodec
 /-!
 # C11 – updating vector-tile properties leaves everything else untouched; PBF round trips
 
@@ -15,7 +16,7 @@ entries.  Decoding and re-encoding any valid vector tile without changes preserv
 All theorems are about the model `VtModel.Prim` / `VtModel.Mvt` (tied to the code by `bin/check C11`).
 -/
 namespace VtProps.C11
-open VtModel VtModel.Prim VtModel.Mvt VtProofs.Prim VtProofs.MvtTables VtProofs.MvtOps
+open VtModel VtModel.Prim VtModel.Mvt VtProofs.Prim VtProofs.MvtTables VtProofs.MvtOps VtProofs.MvtCodec
 
 /-! ## 1. primitives -/
 
@@ -279,5 +280,43 @@ example :
     (updateTile noTables a (fmtValue []) m ⟨[l]⟩).map (fun t => t.layers.map dumpLayer)
       = .ok ["72:4096:2:7,1,090202,6964=s6131&6e=u5"] := by
   decide
+
+/-! ## 5. decode ∘ encode
+
+`ValueOk` / `FeatureOk` / `LayerOk` / `TileOk` describe what the decoder can produce: UTF-8 strings,
+4/8-byte float payloads, `i64`/`u64`/`u32` ranges, geometry type ≤ 3, and an encoding shorter than
+2^64 bytes (the `u64` cursor arithmetic of the sub-readers).  Tables may contain duplicates and
+unused entries; nothing is re-ordered or de-duplicated. -/
+
+/-- `GeoValue::read (to_blob v) = v` for strings, float/double payloads, every `i64`, every `u64`, bools -/
+theorem value_roundtrip (v : Value) (hv : ValueOk v) : decodeValue (encodeValue v) = .ok v :=
+  decodeValue_encodeValue v hv
+
+theorem feature_roundtrip (f : Feature) (hf : FeatureOk f) : decodeFeature (encodeFeature f) = .ok f :=
+  decodeFeature_encodeFeature f hf
+
+theorem layer_roundtrip (l : Layer) (hl : LayerOk l) : decodeLayer (encodeLayer l) = .ok l :=
+  decodeLayer_encodeLayer l hl
+
+/-- **C11 (round trip).** `from_blob (to_blob t) = t` – the whole structure, hence its content. -/
+theorem tile_roundtrip (t : Tile) (ht : TileOk t) : decodeTile (encodeTile t) = .ok t :=
+  decodeTile_encodeTile t ht
+
+/-- … in particular the semantic content is preserved -/
+theorem tile_roundtrip_sem (t : Tile) (ht : TileOk t) :
+    (decodeTile (encodeTile t)).map semTile = .ok (semTile t) := by
+  rw [tile_roundtrip t ht]; rfl
+
+/-- decoding, re-encoding and decoding again gives what the first decoding gave: re-encoding a tile
+    from any encoder does not change its content as this decoder reads it (agreement of this decoder
+    with the MVT specification is the subject of the correspondence check with the independent decoder) -/
+theorem reencode_stable (b : Bytes) (t : Tile) (h : decodeTile b = .ok t) (ht : TileOk t) :
+    decodeTile (encodeTile t) = decodeTile b := by
+  rw [h]; exact tile_roundtrip t ht
+
+example : TileOk ⟨[]⟩ := by simp [TileOk, encodeTile, U64]
+example : ValueOk (.uint 5) ∧ ValueOk (.int (-(2:Int)^63)) ∧ ValueOk (.str [97]) := by
+  refine ⟨by simp [ValueOk, U64], by simp [ValueOk], ?_⟩
+  simp [ValueOk, U64]; decide
 
 end VtProps.C11
